@@ -18,6 +18,48 @@ UNITS = {
                 desc="serial u64 scalar backend: every function of u64/scalar.rs (Scalar52) against integer arithmetic mod l, incl. montgomery_reduce, from_bytes_wide"),
     "SGR": dict(engine="verus", template="contracts/sgr.vx", props=["C04", "C07", "C02", "C15", "C14"], rlimit=100,
                 desc="scalar.rs recodings: as_radix_16, non_adjacent_form, as_radix_2w (digit sums and ranges, all inputs), clamp_integer, small Scalar functions"),
+    "K-OVF64": dict(engine="kani", crate="kani/kern64", props=["C11"], jobs=12, vx_gen=[("replay/consts64.vx", "src/constants_gen.rs")],
+                    desc="serial u64 field+scalar kernels (real files path-mounted): no overflow / no debug assertion / output bounds for ALL limb vectors within the interface bound",
+                    trusted=["Kani/CBMC/CaDiCaL"],
+                    harnesses={
+                       "f_mul_bounds": {'functions': ['curve25519-dalek/src/backend/serial/u64/{field,scalar}.rs :: f_mul_bounds']},
+                       "f_square_bounds": {'functions': ['curve25519-dalek/src/backend/serial/u64/{field,scalar}.rs :: f_square_bounds']},
+                       "f_square2_bounds": {'functions': ['curve25519-dalek/src/backend/serial/u64/{field,scalar}.rs :: f_square2_bounds']},
+                       "f_pow2k_bounds": {'functions': ['curve25519-dalek/src/backend/serial/u64/{field,scalar}.rs :: f_pow2k_bounds'], 'bounded': 'k <= 2 iterations of the squaring loop (body proved for all limbs < 2^54)'},
+                       "f_sub_bounds": {'functions': ['curve25519-dalek/src/backend/serial/u64/{field,scalar}.rs :: f_sub_bounds']},
+                       "f_neg_bounds": {'functions': ['curve25519-dalek/src/backend/serial/u64/{field,scalar}.rs :: f_neg_bounds']},
+                       "f_add_bounds": {'functions': ['curve25519-dalek/src/backend/serial/u64/{field,scalar}.rs :: f_add_bounds']},
+                       "f_as_bytes_total": {'functions': ['curve25519-dalek/src/backend/serial/u64/{field,scalar}.rs :: f_as_bytes_total']},
+                       "f_from_bytes_bounds": {'functions': ['curve25519-dalek/src/backend/serial/u64/{field,scalar}.rs :: f_from_bytes_bounds']},
+                       "s_add_bounds": {'functions': ['curve25519-dalek/src/backend/serial/u64/{field,scalar}.rs :: s_add_bounds']},
+                       "s_sub_bounds": {'functions': ['curve25519-dalek/src/backend/serial/u64/{field,scalar}.rs :: s_sub_bounds']},
+                       "s_mul_bounds": {'functions': ['curve25519-dalek/src/backend/serial/u64/{field,scalar}.rs :: s_mul_bounds']},
+                       "s_square_bounds": {'functions': ['curve25519-dalek/src/backend/serial/u64/{field,scalar}.rs :: s_square_bounds']},
+                       "s_from_bytes_bounds": {'functions': ['curve25519-dalek/src/backend/serial/u64/{field,scalar}.rs :: s_from_bytes_bounds']},
+                       "s_from_bytes_wide_bounds": {'functions': ['curve25519-dalek/src/backend/serial/u64/{field,scalar}.rs :: s_from_bytes_wide_bounds']},
+                       "s_as_bytes_total": {'functions': ['curve25519-dalek/src/backend/serial/u64/{field,scalar}.rs :: s_as_bytes_total']},
+                    }),
+    "K-OVF32": dict(engine="kani", crate="kani/kern32", props=["C11"], jobs=12, vx_gen=[("replay/consts32.vx", "src/constants_gen.rs")], harness_timeout_s=900,
+                    desc="serial u32 field+scalar kernels (never compiled on this host by the repo's own build): same obligations at weight bounds",
+                    trusted=["Kani/CBMC/CaDiCaL"],
+                    harnesses={
+                       "f_mul_bounds": {'functions': ['curve25519-dalek/src/backend/serial/u32/{field,scalar}.rs :: f_mul_bounds']},
+                       "f_square_bounds": {'functions': ['curve25519-dalek/src/backend/serial/u32/{field,scalar}.rs :: f_square_bounds']},
+                       "f_square2_bounds": {'functions': ['curve25519-dalek/src/backend/serial/u32/{field,scalar}.rs :: f_square2_bounds']},
+                       "f_pow2k_bounds": {'functions': ['curve25519-dalek/src/backend/serial/u32/{field,scalar}.rs :: f_pow2k_bounds'], 'bounded': 'k <= 2 iterations of the squaring loop'},
+                       "f_sub_bounds": {'functions': ['curve25519-dalek/src/backend/serial/u32/{field,scalar}.rs :: f_sub_bounds']},
+                       "f_neg_bounds": {'functions': ['curve25519-dalek/src/backend/serial/u32/{field,scalar}.rs :: f_neg_bounds']},
+                       "f_add_bounds": {'functions': ['curve25519-dalek/src/backend/serial/u32/{field,scalar}.rs :: f_add_bounds']},
+                       "f_as_bytes_total": {'functions': ['curve25519-dalek/src/backend/serial/u32/{field,scalar}.rs :: f_as_bytes_total']},
+                       "f_from_bytes_bounds": {'functions': ['curve25519-dalek/src/backend/serial/u32/{field,scalar}.rs :: f_from_bytes_bounds']},
+                       "s_add_bounds": {'functions': ['curve25519-dalek/src/backend/serial/u32/{field,scalar}.rs :: s_add_bounds']},
+                       "s_sub_bounds": {'functions': ['curve25519-dalek/src/backend/serial/u32/{field,scalar}.rs :: s_sub_bounds']},
+                       "s_mul_bounds": {'functions': ['curve25519-dalek/src/backend/serial/u32/{field,scalar}.rs :: s_mul_bounds'], 'thorough_only': True},
+                       "s_square_bounds": {'functions': ['curve25519-dalek/src/backend/serial/u32/{field,scalar}.rs :: s_square_bounds'], 'thorough_only': True},
+                       "s_from_bytes_bounds": {'functions': ['curve25519-dalek/src/backend/serial/u32/{field,scalar}.rs :: s_from_bytes_bounds']},
+                       "s_from_bytes_wide_bounds": {'functions': ['curve25519-dalek/src/backend/serial/u32/{field,scalar}.rs :: s_from_bytes_wide_bounds'], 'thorough_only': True},
+                       "s_as_bytes_total": {'functions': ['curve25519-dalek/src/backend/serial/u32/{field,scalar}.rs :: s_as_bytes_total']},
+                    }),
     "K-ZERO": dict(engine="kani", crate="kani/zero", props=["C14"],
                    desc="drop glue / Zeroize of the secret-holding types of x25519-dalek and ed25519-dalek, on the real crates, complete in the secret value",
                    trusted=["Kani/CBMC/CaDiCaL", "--cfg miri build of zeroize/cpufeatures (asm-free fallback; optimisation barrier not modelled)",
